@@ -59,7 +59,7 @@ func (a actors) tracked() []world.Acct {
 		{Name: "escrow0", Addr: a.escrow0}, {Name: "escrow1", Addr: a.escrow1},
 		{Name: "warp", Addr: world.ModAddr("warp")}, {Name: "cctp", Addr: world.ModAddr("cctp")},
 		{Name: "hyperlane", Addr: world.ModAddr("hyperlane")}, {Name: "ftf", Addr: world.ModAddr("fiat-tokenfactory")},
-		{Name: "transfer", Addr: world.ModAddr("transfer")},
+		{Name: "transfer", Addr: world.ModAddr("transfer")}, {Name: "pool", Addr: PoolAddr()},
 	}
 	for i, u := range a.users {
 		t = append(t, world.Acct{Name: fmt.Sprintf("user%d", i), Addr: u.Raw})
@@ -110,6 +110,9 @@ func (f fwdSpec) attrs() proto.Message {
 }
 
 type paySpec struct {
+	swap      bool // a swap action (C06)
+	swapFirst bool // ... before the fee actions
+	swapTwice bool
 	fees   [][]feeEntry // one fee action per element (usually 0 or 1)
 	extra  []extraAction
 	fwd    fwdSpec
@@ -140,12 +143,24 @@ func (p paySpec) build(cdc interface {
 		}
 	}()
 	pl = &core.Payload{}
+	swapAction := func() *core.Action {
+		return &core.Action{Id: core.ACTION_SWAP, Attributes: anyOf(&actiontypes.FeeAttributes{})}
+	}
+	if p.swap && p.swapFirst {
+		pl.PreActions = append(pl.PreActions, swapAction())
+	}
 	for _, fl := range p.fees {
 		infos := make([]*actiontypes.FeeInfo, len(fl))
 		for i, e := range fl {
 			infos[i] = e.toProto()
 		}
 		pl.PreActions = append(pl.PreActions, &core.Action{Id: core.ACTION_FEE, Attributes: anyOf(&actiontypes.FeeAttributes{FeesInfo: infos})})
+	}
+	if p.swap && !p.swapFirst {
+		pl.PreActions = append(pl.PreActions, swapAction())
+	}
+	if p.swap && p.swapTwice {
+		pl.PreActions = append(pl.PreActions, swapAction())
 	}
 	for _, x := range p.extra {
 		a := &core.Action{Id: core.ActionID(x.id)}
@@ -193,6 +208,7 @@ type profile struct {
 	routes      []string
 	msgKinds    []string
 	mask        []int // kept components of each operation's output (nil: all)
+	pSwap       int   // % of orbiter packets with a swap action (needs the instrumented instance with the swap controller)
 	pPlanned    int   // % of messages chosen to be valid for the state the history has reached (deep histories)
 	pInitLimit  int   // % of histories that begin with the authority raising the passthrough limit
 }
@@ -235,6 +251,9 @@ var profiles = map[string]profile{
 	"C18": {name: "C18", minOps: 3, maxOps: 10, wRecv: 55, wMsg: 35, wDeposit: 0, wQuery: 10, pOrbiter: 97, pFee: 20, pBadPayload: 2,
 		pFault: 0, pLie: 0, pWrongSign: 20, pPass: 85, pHuge: 0, pBadDenom: 0, routes: cleanRoutes, msgKinds: []string{"UpdateParams"}, mask: []int{0, 1, 4}, pPlanned: 50},
 	// C14: the malformed stream through the whole stack
+	// C06: fee and swap controllers in both orders, repeated identifiers
+	"C06": {name: "C06", minOps: 1, maxOps: 4, wRecv: 92, wMsg: 0, wDeposit: 8, wQuery: 0, pOrbiter: 98, pFee: 70, pBadPayload: 6,
+		pFault: 8, pLie: 0, pWrongSign: 0, pPass: 0, pHuge: 6, pBadDenom: 2, routes: cleanRoutes, msgKinds: []string{"UpdateParams"}, mask: []int{0, 1, 2, 4}, pSwap: 70},
 	"C14": {name: "C14", minOps: 1, maxOps: 4, wRecv: 90, wMsg: 5, wDeposit: 5, wQuery: 0, pOrbiter: 85, pFee: 60, pBadPayload: 70,
 		pFault: 0, pLie: 0, pWrongSign: 30, pPass: 20, pHuge: 20, pBadDenom: 25, routes: cleanRoutes, msgKinds: allMsgKinds, mask: []int{0}},
 	"mix": {name: "mix", minOps: 2, maxOps: 8, wRecv: 60, wMsg: 20, wDeposit: 10, wQuery: 10, pOrbiter: 85, pFee: 50, pBadPayload: 15,
@@ -409,6 +428,8 @@ type pktInfo struct {
 	// expectOK: by the harness's reading of the properties this transfer has nothing wrong with it, so
 	// it must succeed unless its destination / action is paused or its passthrough is over the limit
 	expectOK bool
+	// swapRouteOK: a payload with a swap whose packet and route have nothing wrong (the actions are judged by the C06 oracle)
+	swapRouteOK bool
 }
 
 func (g *gen) genPacket() (world.Packet, pktInfo) {
@@ -464,6 +485,19 @@ func (g *gen) genPacket() (world.Packet, pktInfo) {
 				info.shape += "/repeated-action"
 			}
 		}
+		if r.Chance(g.p.pSwap) {
+			spec.swap, spec.swapFirst = true, r.Bool()
+			spec.swapTwice = r.Chance(6)
+			info.shape += "/swap"
+			if spec.swapTwice {
+				info.shape += "-twice"
+			}
+			// the route must take the denomination the swap leaves
+			final, _ := otherDenom(native)
+			if spec.fwd.kind == "hyp" {
+				spec.fwd.token = []byte(g.w.S.HypTokens[final])
+			}
+		}
 		if r.Chance(g.p.pBadPayload) {
 			switch r.Intn(8) {
 			case 0:
@@ -487,6 +521,22 @@ func (g *gen) genPacket() (world.Packet, pktInfo) {
 		}
 		info.spec = spec
 		base := strings.TrimSuffix(info.shape, "/upper-receiver")
+		if spec.swap {
+			// with a swap the harness judges validity in the C06 oracle, on the running coin
+			b2 := strings.TrimSuffix(strings.TrimSuffix(base, "/swap"), "/upper-receiver")
+			final, _ := otherDenom(native)
+			if b2 == "valid" && !spec.swapTwice && info.amount.Sign() > 0 && info.amount.Cmp(big.NewInt(1_000_000_000_000)) <= 0 {
+				ok := true
+				switch spec.fwd.kind {
+				case "cctp":
+					ok = final == sim.USDC && spec.fwd.domain != 4 && spec.fwd.domain != 9
+				case "hyp":
+					ok = spec.fwd.domain == 1 && string(spec.fwd.token) == g.w.S.HypTokens[final] && len(spec.fwd.hook) == 0
+				}
+				info.swapRouteOK = ok
+			}
+			base = "swap"
+		}
 		if base == "valid" && info.amount.Sign() > 0 && info.amount.Cmp(big.NewInt(1_000_000_000_000)) <= 0 {
 			ok := true
 			for _, fl := range spec.fees {
@@ -770,6 +820,13 @@ func (wr *worldRunner) caseCtx() sdk.Context {
 	for _, ch := range dstChans {
 		for _, d := range wr.w.Denoms {
 			if err := wr.w.FundEscrow(ctx, dstPort, ch, sdk.NewCoin(d, math.NewInt(5_000_000_000))); err != nil {
+				panic(err)
+			}
+		}
+	}
+	if wr.w.InstOnly {
+		for _, d := range wr.w.Denoms {
+			if err := wr.w.S.Mint(ctx, PoolAddr(), sdk.NewCoins(sdk.NewCoin(d, math.NewInt(9_000_000_000_000)))); err != nil {
 				panic(err)
 			}
 		}
